@@ -3,6 +3,7 @@ package main
 import (
 	"fmt"
 	"go/ast"
+	"go/token"
 	"go/types"
 
 	"golang.org/x/tools/go/ssa"
@@ -190,6 +191,27 @@ func (vc *VC) loopHead(fr *Frame, li *loopInfo, b *ssa.BasicBlock) {
 			break
 		}
 		fr.vals[phi] = vc.freshValue(phi.Type(), "loop_"+phi.Comment)
+		if phi.Comment == "rangeindex" {
+			// go/ssa's lowering of `for i := range s`: the hidden index starts at -1 and is
+			// incremented only while index+1 < len, so it stays within [-1, len)
+			vc.assume("(bvsle (bvneg (_ bv1 64)) " + fr.vals[phi].L[0] + ")")
+			// ... and below the bound it is compared with (it is -1 or a value that passed the test)
+			for _, i2 := range b.Instrs {
+				add, ok := i2.(*ssa.BinOp)
+				if !ok || add.Op != token.ADD || add.X != phi {
+					continue
+				}
+				for _, i3 := range b.Instrs {
+					if lt, ok := i3.(*ssa.BinOp); ok && lt.Op == token.LSS && lt.X == add {
+						if bound, ok := fr.vals[lt.Y]; ok {
+							vc.assume("(or (= " + fr.vals[phi].L[0] + " (bvneg (_ bv1 64))) (bvslt " + fr.vals[phi].L[0] + " " + bound.L[0] + "))")
+						} else if c, ok := lt.Y.(*ssa.Const); ok {
+							vc.assume("(bvslt " + fr.vals[phi].L[0] + " " + vc.constValue(c).L[0] + ")")
+						}
+					}
+				}
+			}
+		}
 	}
 	if li.rangeIt != nil {
 		vc.rangeHavoc(fr, li)
